@@ -127,18 +127,21 @@ Proof.
   constructor; [|constructor]. unfold Qdep; cbn. now rewrite Ht, Hc.
 Qed.
 
-Lemma seg_draws_gen s H deg (lab : nat -> chal) js :
+Lemma seg_draws_gen s H deg (g : nat -> nat) (lab : nat -> chal) js :
   (forall j, msgs_before s (lab j) = H) ->
-  seg s H (map (fun j => draw1 deg j (lab j)) js) H.
+  seg s H (map (fun j => draw1 deg (g j) (lab j)) js) H.
 Proof.
   intros Hc. induction js as [|j js IH]; [apply seg_nil|].
-  change (map (fun j0 => draw1 deg j0 (lab j0)) (j :: js))
-    with ([draw1 deg j (lab j)] ++ map (fun j0 => draw1 deg j0 (lab j0)) js).
+  change (map (fun j0 => draw1 deg (g j0) (lab j0)) (j :: js))
+    with ([draw1 deg (g j) (lab j)] ++ map (fun j0 => draw1 deg (g j0) (lab j0)) js).
   eapply seg_app; [apply seg_draw1, Hc | exact IH].
 Qed.
 
 Lemma seg_draws s H deg lab n : (forall j, msgs_before s (lab j) = H) -> seg s H (draws deg lab n) H.
-Proof. intros Hc. apply seg_draws_gen, Hc. Qed.
+Proof. intros Hc. apply (seg_draws_gen s H deg (fun j => j)), Hc. Qed.
+
+Lemma seg_draws_at s H from deg lab n : (forall j, msgs_before s (lab j) = H) -> seg s H (draws_at from deg lab n) H.
+Proof. intros Hc. apply (seg_draws_gen s H deg (fun j => from + j)), Hc. Qed.
 
 Lemma fri_msgs_S i : fri_msgs (S i) = fri_msgs i ++ [FriLayerCommitment i].
 Proof. unfold fri_msgs. rewrite seq_S, map_app. reflexivity. Qed.
@@ -178,7 +181,9 @@ Proof. unfold fri_roots. apply verifier_fri_new_eq. reflexivity. Qed.
 Definition pre (s : shape) : list step :=
   let e := sh_ext_deg s in
   [(EvNew seed_syms, None)] ++ [reseed (TraceCommitment 0)]
-  ++ (if multi_segment s then draws e AuxRand (sh_aux_rands s) ++ [reseed (TraceCommitment 1)] else [])
+  ++ (if multi_segment s
+      then draws e GkrRand (n_gkr s) ++ draws_at (n_gkr s) e AuxRand (sh_aux_rands s) ++ [reseed (TraceCommitment 1)]
+      else [])
   ++ draws e CompositionCoeff (n_comp s)
   ++ [reseed ConstraintCommitment] ++ [draw1 e 0 OodPoint]
   ++ [reseed HashOodTraceFrame] ++ [reseed HashOodConstraintEvals]
@@ -191,12 +196,25 @@ Definition post (s : shape) : list step :=
 
 Definition extra (s : shape) : list step := [draw1 (sh_ext_deg s) 0 FriAlphaUnused].
 
+(* the GKR step draws n_gkr elements when the column is present, nothing otherwise; the verifier's two branches
+   (verifier/src/lib.rs: with / without Lagrange kernel column) are the same sequence *)
+Lemma prover_gkr_eq s deg :
+  match sh_lagrange s with Some (g, _) => draws deg GkrRand g | None => [] end = draws deg GkrRand (n_gkr s).
+Proof. unfold n_gkr. destruct (sh_lagrange s) as [[g l]|]; reflexivity. Qed.
+
+Lemma verifier_aux_eq s deg :
+  match sh_lagrange s with
+  | Some (g, _) => draws deg GkrRand g ++ draws_at g deg AuxRand (sh_aux_rands s) ++ [reseed (TraceCommitment 1)]
+  | None => draws deg AuxRand (sh_aux_rands s) ++ [reseed (TraceCommitment 1)]
+  end = draws deg GkrRand (n_gkr s) ++ draws_at (n_gkr s) deg AuxRand (sh_aux_rands s) ++ [reseed (TraceCommitment 1)].
+Proof. unfold n_gkr. destruct (sh_lagrange s) as [[g l]|]; reflexivity. Qed.
+
 Lemma prover_split s : prover s = pre s ++ post s.
-Proof. unfold prover, pre, post. cbn zeta. rewrite <- !app_assoc. reflexivity. Qed.
+Proof. unfold prover, pre, post. cbn zeta. rewrite prover_gkr_eq. rewrite <- !app_assoc. reflexivity. Qed.
 
 Lemma verifier_split s : verifier s = pre s ++ extra s ++ post s.
 Proof.
-  unfold verifier, pre, post, extra. cbn zeta. rewrite verifier_fri_eq. rewrite <- !app_assoc. reflexivity.
+  unfold verifier, pre, post, extra. cbn zeta. rewrite verifier_fri_eq, verifier_aux_eq. rewrite <- !app_assoc. reflexivity.
 Qed.
 
 Definition H_rem (s : shape) : list sym := upto_deep s ++ fri_msgs (sh_fri_layers s) ++ [RemainderCommitment].
@@ -209,6 +227,7 @@ Proof.
   eapply seg_app with (H1 := seed_syms ++ trace_msgs s).
   { unfold trace_msgs. destruct (multi_segment s).
     - eapply seg_app; [apply seg_draws; intros j; reflexivity|].
+      eapply seg_app; [apply seg_draws_at; intros j; reflexivity|].
       replace (seed_syms ++ [TraceCommitment 0; TraceCommitment 1])
         with ((seed_syms ++ [TraceCommitment 0]) ++ [TraceCommitment 1]) by (now rewrite <- app_assoc).
       apply seg_reseed.
@@ -304,12 +323,15 @@ Qed.
 Lemma labels_app st l1 l2 : map fst (run st (l1 ++ l2)) = map fst (run st l1) ++ map fst (run (exec st l1) l2).
 Proof. rewrite run_app, map_app. reflexivity. Qed.
 
-Lemma labels_draws_gen deg (lab : nat -> chal) js : forall st,
-  map fst (run st (map (fun j => draw1 deg j (lab j)) js)) = map lab js.
+Lemma labels_draws_gen deg (g : nat -> nat) (lab : nat -> chal) js : forall st,
+  map fst (run st (map (fun j => draw1 deg (g j) (lab j)) js)) = map lab js.
 Proof. induction js as [|j js IH]; intros st; cbn; [reflexivity | now rewrite IH]. Qed.
 
 Lemma labels_draws deg lab n st : map fst (run st (draws deg lab n)) = map lab (seq 0 n).
-Proof. apply labels_draws_gen. Qed.
+Proof. apply (labels_draws_gen deg (fun j => j)). Qed.
+
+Lemma labels_draws_at from deg lab n st : map fst (run st (draws_at from deg lab n)) = map lab (seq 0 n).
+Proof. apply (labels_draws_gen deg (fun j => from + j)). Qed.
 
 Lemma labels_fri_prover deg n : forall i st,
   map fst (run st (prover_fri_layers deg i n)) = map FriAlpha (seq i n).
@@ -329,16 +351,18 @@ Lemma lab_draw1 deg k c : lab_of [draw1 deg k c] [c].
 Proof. intros st; reflexivity. Qed.
 Lemma lab_draws deg lab n : lab_of (draws deg lab n) (map lab (seq 0 n)).
 Proof. intros st; apply labels_draws. Qed.
+Lemma lab_draws_at from deg lab n : lab_of (draws_at from deg lab n) (map lab (seq 0 n)).
+Proof. intros st; apply labels_draws_at. Qed.
 Lemma lab_fri deg i n : lab_of (prover_fri_layers deg i n) (map FriAlpha (seq i n)).
 Proof. intros st; apply labels_fri_prover. Qed.
 
 Lemma labels_pre s st :
   map fst (run st (pre s)) =
-    (if multi_segment s then map AuxRand (seq 0 (sh_aux_rands s)) else [])
+    (if multi_segment s then map GkrRand (seq 0 (n_gkr s)) ++ map AuxRand (seq 0 (sh_aux_rands s)) else [])
     ++ map CompositionCoeff (seq 0 (n_comp s)) ++ [OodPoint]
     ++ map DeepCoeff (seq 0 (n_deep s)) ++ map FriAlpha (seq 0 (sh_fri_layers s)).
 Proof.
-  revert st. change (lab_of (pre s) ((if multi_segment s then map AuxRand (seq 0 (sh_aux_rands s)) else [])
+  revert st. change (lab_of (pre s) ((if multi_segment s then map GkrRand (seq 0 (n_gkr s)) ++ map AuxRand (seq 0 (sh_aux_rands s)) else [])
     ++ map CompositionCoeff (seq 0 (n_comp s)) ++ [OodPoint]
     ++ map DeepCoeff (seq 0 (n_deep s)) ++ map FriAlpha (seq 0 (sh_fri_layers s)))).
   unfold pre. cbn zeta.
@@ -346,7 +370,8 @@ Proof.
   apply (lab_app _ _ [] _ (lab_reseed _)).
   apply lab_app.
   { destruct (multi_segment s); [|apply lab_nil].
-    rewrite <- (app_nil_r (map AuxRand _)). apply lab_app; [apply lab_draws | apply lab_reseed]. }
+    apply lab_app; [apply lab_draws|].
+    rewrite <- (app_nil_r (map AuxRand _)). apply lab_app; [apply lab_draws_at | apply lab_reseed]. }
   apply lab_app; [apply lab_draws|].
   apply (lab_app _ _ [] _ (lab_reseed _)).
   apply (lab_app _ _ [OodPoint] _ (lab_draw1 _ _ _)).
@@ -389,10 +414,11 @@ Proof.
   apply Forall_forall. intros [c v] Hin.
   assert (Hc : In c (map fst (run st (pre s)))) by (apply in_map_iff; exists (c, v); auto).
   rewrite labels_pre in Hc. cbn [fst].
+  destruct (multi_segment s);
   repeat (apply in_app_or in Hc as [Hc|Hc]);
-    try (destruct (multi_segment s); [|contradiction]);
-    try (apply in_map_iff in Hc as (j & <- & _); reflexivity).
-  destruct Hc as [<-|[]]. reflexivity.
+    try contradiction;
+    try (apply in_map_iff in Hc as (j & <- & _); reflexivity);
+    destruct Hc as [<-|[]]; reflexivity.
 Qed.
 
 Definition usedb (cv : chal * cval) : bool := used (fst cv).
@@ -497,11 +523,13 @@ Qed.
 
 (* ------------------------------------------------------------------------------------------------ *)
 (* THEOREM absorbed_is_carried *)
-Lemma absorbs_draws_gen deg (lab : nat -> chal) js : absorbs (map (fun j => draw1 deg j (lab j)) js) = [].
+Lemma absorbs_draws_gen deg (g : nat -> nat) (lab : nat -> chal) js : absorbs (map (fun j => draw1 deg (g j) (lab j)) js) = [].
 Proof. induction js; cbn; auto. Qed.
 
 Lemma absorbs_draws deg lab n : absorbs (draws deg lab n) = [].
-Proof. apply absorbs_draws_gen. Qed.
+Proof. apply (absorbs_draws_gen deg (fun j => j)). Qed.
+Lemma absorbs_draws_at from deg lab n : absorbs (draws_at from deg lab n) = [].
+Proof. apply (absorbs_draws_gen deg (fun j => from + j)). Qed.
 
 Lemma absorbs_fri_prover deg n : forall i, absorbs (prover_fri_layers deg i n) = map FriLayerCommitment (seq i n).
 Proof. induction n as [|n IH]; intros i; cbn; [reflexivity|]. f_equal. apply IH. Qed.
@@ -510,7 +538,7 @@ Lemma absorbs_pre s : absorbs (pre s) = H_rem s.
 Proof.
   unfold pre, H_rem, upto_deep, trace_msgs. cbn zeta.
   rewrite !absorbs_app, !absorbs_draws, absorbs_fri_prover.
-  destruct (multi_segment s); [rewrite absorbs_app, absorbs_draws|]; cbn; rewrite <- ?app_assoc; reflexivity.
+  destruct (multi_segment s); [rewrite !absorbs_app, absorbs_draws, absorbs_draws_at|]; cbn; rewrite <- ?app_assoc; reflexivity.
 Qed.
 
 Theorem absorbs_prover s : absorbs (prover s) = H_rem s ++ [PowNonce].
@@ -588,4 +616,27 @@ Proof.
   split; [now apply chals_eqb_eq|].
   intros c v Hin. pose proof (depends_ok_sound _ _ Hd c v Hin) as Hh.
   split; [exact Hh|]. intros m Hm. apply absorbed_in_hist. rewrite Hh. exact Hm.
+Qed.
+
+(* observed uses: an accepted log has every observed GKR / auxiliary-randomness use on a draw the protocol gives that purpose *)
+Theorem log_ok_uses_sound side s l us :
+  log_ok_uses side s l us = true ->
+  log_ok side s l = true /\ uses_ok (label (drawn_challenges side s) l) us = true.
+Proof. unfold log_ok_uses. intros H. apply andb_true_iff in H. exact H. Qed.
+
+Lemma uses_ok_spec : forall ls us, uses_ok ls us = true ->
+  forall i e lab, nth_error ls i = Some (e, lab) ->
+    match nth_error us i with
+    | Some UseGkr => exists j, lab = Some (GkrRand j)
+    | Some UseAux => exists j, lab = Some (AuxRand j)
+    | Some UseUnobserved => True
+    | None => False
+    end.
+Proof.
+  induction ls as [|[e0 lab0] ls IH]; intros [|u us] H i e lab Hn; cbn in H; try discriminate.
+  - destruct i; discriminate.
+  - apply andb_true_iff in H as [H1 H2].
+    destruct i as [|i]; cbn in Hn |- *.
+    + injection Hn as <- <-. destruct u; auto; destruct lab0 as [[]|]; try discriminate; eauto.
+    + exact (IH us H2 i e lab Hn).
 Qed.
